@@ -49,7 +49,7 @@ Inductive controller := CSingle (i : id) | CGroup (g : group).
 (** recovery.go: storage version 0 = deprecated single address, version 1 = group. *)
 Inductive recovery := ROld (a : addr) | RNew (g : group).
 
-Definition attr := (N * N)%type.   (* (attribute key, (type, value) payload) tokens *)
+Definition attr := (N * N)%type.   (* (attribute key, (type, value) payload) tokens; key token 0 is the empty byte string *)
 
 Record idrec := mkRec {
   r_flag : N;                       (* utils.go flag_not_exist / flag_valid / flag_revoke *)
@@ -233,10 +233,13 @@ Definition attr_insert (l : list attr) (a : attr) : list attr :=
   if attr_has l (fst a) then map (fun x => if fst x =? fst a then a else x) l else a :: l.
 (** batchInsertAttr: insert all, then the count check (Gen). *)
 Definition batch_insert (l : list attr) (attrs : list attr) : option (list attr) :=
+  if existsb (fun x => fst x =? 0) attrs then None   (* empty key: "[linked list] invalid item" *)
+  else
   let l' := fold_left attr_insert attrs l in
   if too_many_attrs (len l') then None else Some l'.
 (** deleteAttr: "attribute not exist" unless present. *)
 Definition attr_delete (l : list attr) (k : N) : option (list attr) :=
+  if k =? 0 then None else
   if attr_has l k then Some (filter (fun x => negb (fst x =? k)) l) else None.
 
 (** ---------- groups (group.go) ---------- *)
